@@ -197,18 +197,36 @@ def build(work, tier):
         proofs += roundtrip_proofs(kit, c, classes, kind='bounded', unwind=4, bound_text=LIST_BOUND)
     proofs += scalar_proofs(kit)
     proofs.append(feature_mode_proof(kit))
+    # IQ extension: loop-free payload codecs of QXmppIq subclasses and the QXmppIq header (own kits: own lowering profile)
+    import iq
+    kits = [kit]
+    for fn in (iq.payload_proofs, iq.header_proofs, iq.item_proofs):
+        k, ps = fn('C01', work, mk_proof, 'roundtrip')
+        kits.append(k)
+        proofs += ps
     if tier != 'thorough':
         # the finding-restricted runs of the two largest composites only repeat what the member codec's own run reports
         proofs = [p for p in proofs if not (getattr(p, 'finding', None) and p.id.split('_roundtrip')[0] in HEAVY)]
-    text_all = open(os.path.join(QT, 'xml.h')).read() + open(os.path.join(QT, 'conv.h')).read() + open(os.path.join(QT, 'opaque.h')).read() + codec.MODEL_GLUE
-    npad = sum(t.count('xw_pad(') for t in kit.texts.values())
+    text_all = open(os.path.join(QT, 'xml.h')).read() + open(os.path.join(QT, 'conv.h')).read() + open(os.path.join(QT, 'opaque.h')).read() + codec.MODEL_GLUE + iq.TZO_MODEL + iq.HDR_STUBS + iq.presence.STUBS + iq.ITEM_MODEL
+    npad = sum(t.count('xw_pad(') for k in kits for t in k.texts.values())
+    functions, seen = [], set()
+    for k in kits:
+        for f in k.b.functions:
+            if f['cname'] not in seen:
+                seen.add(f['cname'])
+                functions.append(f)
+    fired = {}
+    for k in kits:
+        for r, n in k.b.fired.items():
+            fired[r] = fired.get(r, 0) + n
     return {
-        'proofs': proofs, 'functions': kit.b.functions, 'dropped': kit.b.dropped, 'fired': kit.b.fired,
+        'proofs': proofs, 'functions': functions, 'dropped': [d for k in kits for d in k.b.dropped], 'fired': fired,
         'hooks': [HOOKS_NOTE % npad],
-        'assumed': ASSUMED,
+        'assumed': ASSUMED + iq.ASSUMED_IQ,
         'assumes': scan_assumes(text_all),
         'not_covered': [
-            'the ~100 large stanza / extension classes (QXmppMessage, QXmppPresence, QXmppIq and its subclasses, data forms, pubsub, MIX, Jingle, vCard, roster, disco, MAM, file sharing, trust messages, QXmppElement, QXmppStanza::Error): their parse/toXml are not lowered; the duplicated <error/> of a generic error IQ lives there',
+            'of the QXmppIq family only the header (id, to, from, lang, type) and the payloads of QXmppBindIq, QXmppVersionIq, QXmppNonSASLAuthIq, QXmppEntityTimeIq, QXmppIbbOpenIq / CloseIq / DataIq, QXmppPingIq, QXmppSessionIq are covered; in QXmppIq::parse / toXml the payload hooks, the <error/> sub-object and extended addresses are contract-only stubs; QXmppRosterIq::Item is covered as a bounded stand-in (at most 2 groups), not QXmppRosterIq itself (item list); QXmppStreamInitiationIq is not flat (data form + file info sub-objects) and was left out',
+            'the remaining large stanza / extension classes (QXmppMessage, QXmppPresence (attempted: solver memory), all other QXmppIq subclasses, data forms, pubsub, MIX, Jingle, vCard, roster, disco, MAM, file sharing, trust messages, QXmppElement, QXmppStanza::Error): their parse/toXml are not lowered; the duplicated <error/> of a generic error IQ lives there',
             'QXmppStreamFeatures::parse/toXml (12 children incl. two lists; only its member Sasl2::StreamFeature is covered, bounded), StreamOpen::toXml, CsiActive/CsiInactive::toXml (serialisers without a parser), StreamErrorElement::fromDom (std::variant result, no serialiser; only streamErrorToString and its enumFromString instantiation are covered)',
             'character escaping / markup injection: Qt\'s QXmlStreamWriter and QDomDocument (assumption A-XML-RT); QXmpp\'s share, the raw-write inventory (writer->device()->write for XHTML-IM), is not checked here',
             'blank (whitespace-only) strings and strings of XML-illegal characters (outside the property statement and outside A-XML-RT)',
@@ -226,8 +244,9 @@ HEAVY = ('Sasl2Success', 'Sasl2StreamFeature')
 SCENARIOS = {   # proof id prefix -> native scenario of units/C01/replay_codec.cpp
     'SmEnabled': 'smenabled', 'Bind2Bound_roundtrip@C01-smenabled': 'bind2bound', 'Sasl2Success_roundtrip@C01-smenabled': 'sasl2success',
     'SmFailed': 'smfailed-nocondition', 'FastFeature': 'fastfeature-tls0rtt', 'stringToInt_u8': 'uint8', 'parseInt_u8': 'uint8', 'IntRoundtrip_u8': 'uint8',
-    'Sasl2UserAgent': 'useragent-standalone',
+    'Sasl2UserAgent': 'useragent-standalone', 'QXmppIq_roundtrip': 'iq-lang',
 }
+IQ_SCENARIOS = {'QXmppIq_roundtrip': 'iq-lang'}
 
 
 def _native(scenario):
@@ -243,10 +262,18 @@ def find_input(unit, p, o, lab, work):
     sc = next((v for k, v in sorted(SCENARIOS.items(), key=lambda kv: -len(kv[0])) if p.id.startswith(k)), None)
     if not sc:
         return {'inputs': None, 'reproduced': False, 'native_search': 'no native scenario for ' + p.id}
+    if sc in IQ_SCENARIOS.values():
+        from vlib import native
+        rc, out = native.run_driver(os.path.join(HERE, 'replay_iq.cpp'), args=[sc], timeout=600)
+        return {'inputs': {'scenario': sc, 'driver': 'replay_iq.cpp'}, 'reproduced': rc == 1 and 'NOT-REPRODUCED' not in out, 'native_output': out[-1500:]}
     rc, out = _native(sc)
     return {'inputs': {'scenario': sc}, 'reproduced': rc == 1 and 'REPRODUCED' in out and 'NOT-REPRODUCED' not in out, 'native_output': out[-1500:]}
 
 
 def native_replay(rp):
+    if rp['inputs'].get('driver') == 'replay_iq.cpp':
+        from vlib import native
+        rc, out = native.run_driver(os.path.join(HERE, 'replay_iq.cpp'), args=[rp['inputs']['scenario']], timeout=600)
+        return (rc == 1 and 'NOT-REPRODUCED' not in out), out
     rc, out = _native(rp['inputs']['scenario'])
     return (rc == 1 and 'NOT-REPRODUCED' not in out), out
